@@ -1,6 +1,8 @@
-(** The structured, pruned read path of the model equals the tiered read
-    [tget] over [tiers_of], given sorted sources, positive versions and
-    disjoint main-level tables. *)
+(** The structured, pruned read path of the model (range tests, max-version
+    pruning, binary search in the main tables, early exit on an exact version)
+    equals the flat scan [tier_best] over every source in scan order
+    ([scan_srcs]), given sorted sources, positive versions and disjoint
+    main-level tables. *)
 From Coq Require Import List NArith Bool Lia Sorting.Sorted.
 From NoKV Require Import Base.Bytes Model.Lsm Spec.MvccSpec Proofs.LsmOrder Spec.LsmSpec Proofs.LsmRead.
 Import ListNotations.
@@ -219,28 +221,84 @@ Record src_inv (s : state) : Prop := {
                               main_disjoint (lv_main lv)) (st_lvls s);
   sv_pos : forall x, In x (all_recs (tiers_of s)) -> 0 < r_ver x }.
 
-Lemma level_get_tier k v lv :
+Lemma level_get_upd k v best lv :
   Forall (Forall (fun t => sorted (t_recs t))) (lv_shards lv) ->
   Forall (fun t => sorted (t_recs t)) (lv_main lv) -> main_disjoint (lv_main lv) ->
-  level_get k v lv = tier_best k v (level_srcs lv).
+  level_get k v best lv = fold_left (upd k v) (level_srcs lv) best.
 Proof.
-  intros H1 H2 H3. unfold level_get, tier_best, level_srcs.
+  intros H1 H2 H3. unfold level_get, level_srcs.
   rewrite main_search_upd by assumption. rewrite fold_shards_upd by assumption.
   now rewrite map_app, fold_left_app.
 Qed.
 
-Lemma mem_get_tier k v l :
-  sorted l -> (forall x, In x l -> 0 < r_ver x) -> mem_get k v l = tier_best k v [l].
+Lemma level_get_tier k v lv :
+  Forall (Forall (fun t => sorted (t_recs t))) (lv_shards lv) ->
+  Forall (fun t => sorted (t_recs t)) (lv_main lv) -> main_disjoint (lv_main lv) ->
+  level_get k v None lv = tier_best k v (level_srcs lv).
+Proof. apply level_get_upd. Qed.
+
+(** A hit never exceeds the requested version (no sortedness needed), so a
+    best of exactly that version cannot be replaced: stopping the scan there
+    equals scanning on. *)
+Lemma seek_not_lt k v l x : seek k v l = Some x -> kcmp (r_key x) (r_ver x) k v <> Lt.
 Proof.
-  intros Hs Hp. unfold mem_get, tier_best, upd, mem_hit. cbn [fold_left].
-  destruct (src_search k v l) as [x|] eqn:E; [|reflexivity].
-  destruct (src_search_some _ _ _ _ Hs E) as (Hin & _ & _). specialize (Hp x Hin).
-  destruct (0 <? r_ver x) eqn:El; [reflexivity | apply N.ltb_ge in El; lia].
+  induction l as [|y l IH]; cbn [seek]; [discriminate|].
+  destruct (kcmp (r_key y) (r_ver y) k v) eqn:E; [intros [= <-]; congruence | exact IH | intros [= <-]; congruence].
 Qed.
 
-Lemma first_some_app {A} (l1 l2 : list (option A)) :
-  first_some (l1 ++ l2) = match first_some l1 with Some x => Some x | None => first_some l2 end.
-Proof. induction l1 as [|[x|] l1 IH]; cbn; auto. Qed.
+Lemma src_search_ver_le k v l x : src_search k v l = Some x -> r_ver x <= v.
+Proof.
+  unfold src_search. destruct (seek k v l) as [y|] eqn:E; [|discriminate].
+  destruct (bytes_eqb (r_key y) k) eqn:Ek; [|discriminate]. intros [= <-].
+  apply bytes_eqb_eq in Ek. apply seek_not_lt in E. unfold kcmp in E. rewrite Ek, bytes_cmp_refl in E.
+  destruct (N.compare_spec v (r_ver y)); [lia | congruence | lia].
+Qed.
+
+Lemma upd_exact k v best l : exact v best = true -> upd k v best l = best.
+Proof.
+  unfold exact, upd. destruct best as [b|]; [|discriminate]. intro E. apply N.eqb_eq in E.
+  destruct (src_search k v l) as [x|] eqn:Es; [|reflexivity].
+  apply src_search_ver_le in Es. destruct (r_ver b <? r_ver x) eqn:El; [apply N.ltb_lt in El; lia | reflexivity].
+Qed.
+
+Lemma fold_upd_exact k v srcs : forall best, exact v best = true -> fold_left (upd k v) srcs best = best.
+Proof.
+  induction srcs as [|l srcs IH]; intros best E; cbn [fold_left]; [reflexivity|].
+  rewrite (upd_exact k v best l E). now apply IH.
+Qed.
+
+Lemma mem_step_upd k v best l :
+  (forall x, In x l -> 0 < r_ver x) -> mem_step k v best l = upd k v best l.
+Proof.
+  intro Hp. unfold mem_step. destruct (exact v best) eqn:E; [symmetry; now apply upd_exact|].
+  unfold upd, mem_get, mem_hit. destruct (src_search k v l) as [x|] eqn:Es; [|reflexivity].
+  destruct best as [b|]; [reflexivity|].
+  assert (Hx : In x l).
+  { unfold src_search in Es. destruct (seek k v l) as [y|] eqn:E2; [|discriminate].
+    destruct (bytes_eqb (r_key y) k); [|discriminate]. injection Es as <-. now apply seek_some_in in E2. }
+  specialize (Hp x Hx). destruct (0 <? r_ver x) eqn:El; [reflexivity | apply N.ltb_ge in El; lia].
+Qed.
+
+Lemma fold_mem_step_upd k v srcs : forall best,
+  (forall l x, In l srcs -> In x l -> 0 < r_ver x) ->
+  fold_left (mem_step k v) srcs best = fold_left (upd k v) srcs best.
+Proof.
+  induction srcs as [|l srcs IH]; intros best Hp; cbn [fold_left]; [reflexivity|].
+  rewrite mem_step_upd by (intros x Hx; apply (Hp l x); [now left | exact Hx]).
+  apply IH. intros l' x Hl. apply Hp. now right.
+Qed.
+
+Lemma fold_level_step_upd k v lvls : forall best,
+  Forall (fun lv => Forall (Forall (fun t => sorted (t_recs t))) (lv_shards lv) /\
+                    Forall (fun t => sorted (t_recs t)) (lv_main lv) /\
+                    main_disjoint (lv_main lv)) lvls ->
+  fold_left (level_step k v) lvls best = fold_left (upd k v) (concat (map level_srcs lvls)) best.
+Proof.
+  induction lvls as [|lv lvls IH]; intros best H; cbn [fold_left map concat]; [reflexivity|].
+  inversion H as [|? ? (H1 & H2 & H3) H']; subst. rewrite fold_left_app, <- IH by exact H'. f_equal.
+  unfold level_step. destruct (exact v best) eqn:E; [symmetry; now apply fold_upd_exact|].
+  now apply level_get_upd.
+Qed.
 
 Lemma mem_in_all s x : In x (st_mem s) -> In x (all_recs (tiers_of s)).
 Proof.
@@ -255,24 +313,25 @@ Proof.
   apply in_map_iff. exists m. split; [reflexivity|]. now apply -> in_rev.
 Qed.
 
-Theorem get_is_tget s k v : src_inv s -> get s k v = tget k v (tiers_of s).
+Lemma concat_map_single {A B} (f : A -> B) l : concat (map (fun m => [f m]) l) = map f l.
+Proof. induction l as [|x l IH]; [reflexivity|]. cbn [map concat app]. now rewrite IH. Qed.
+
+Lemma scan_srcs_eq s :
+  scan_srcs s = (st_mem s :: map snd (rev (st_imms s))) ++ map t_recs (rev (st_l0 s))
+                ++ concat (map level_srcs (st_lvls s)).
 Proof.
-  intros [Hm Hi Hl0 Hlv Hpos]. unfold get, tget, tiers_of.
-  rewrite !map_app, !first_some_app. cbn [map first_some].
-  assert (Pmem : forall x, In x (st_mem s) -> 0 < r_ver x).
-  { intros x Hx. apply Hpos. now apply mem_in_all. }
-  rewrite <- (mem_get_tier k v (st_mem s) Hm Pmem).
-  destruct (mem_get k v (st_mem s)) as [x|]; [reflexivity|].
-  assert (Eimm : map (fun m : N * list rec => mem_get k v (snd m)) (rev (st_imms s))
-                 = map (tier_best k v) (map (fun m => [snd m]) (rev (st_imms s)))).
-  { rewrite map_map. apply map_ext_in. intros m Hmi. apply in_rev in Hmi. apply mem_get_tier.
-    - rewrite Forall_forall in Hi. now apply Hi.
-    - intros x Hx. apply Hpos. now apply (imm_in_all s m). }
-  rewrite Eimm. destruct (first_some (map (tier_best k v) (map (fun m => [snd m]) (rev (st_imms s))))) as [x|]; [reflexivity|].
-  rewrite scan_tables_upd.
-  2:{ rewrite Forall_forall in *. intros t Ht. apply in_rev in Ht. auto. }
-  unfold tier_best at 1. 
-  destruct (fold_left (upd k v) (map t_recs (rev (st_l0 s))) None) as [x|]; [reflexivity|].
-  rewrite map_map. f_equal. apply map_ext_in. intros lv Hlvi. rewrite Forall_forall in Hlv. destruct (Hlv lv Hlvi) as (H1 & H2 & H3).
-  now apply level_get_tier.
+  unfold scan_srcs, tiers_of. rewrite !concat_app. cbn [concat app]. rewrite app_nil_r.
+  now rewrite (concat_map_single (@snd N (list rec))).
+Qed.
+
+Theorem get_is_flat s k v : src_inv s -> get s k v = tier_best k v (scan_srcs s).
+Proof.
+  intros [Hm Hi Hl0 Hlv Hpos]. unfold get, tier_best. rewrite scan_srcs_eq, !fold_left_app.
+  rewrite fold_mem_step_upd.
+  2:{ intros l x [<-|Hl] Hx; apply Hpos; [now apply mem_in_all|].
+      apply in_map_iff in Hl as (m & <- & Hm'). apply in_rev in Hm'. now apply (imm_in_all s m). }
+  set (b1 := fold_left (upd k v) (st_mem s :: map snd (rev (st_imms s))) None).
+  rewrite (fold_level_step_upd k v (st_lvls s) _ Hlv). f_equal.
+  destruct (exact v b1) eqn:E; [symmetry; now apply fold_upd_exact|].
+  apply scan_tables_upd. rewrite Forall_forall in *. intros t Ht. apply in_rev in Ht. auto.
 Qed.
